@@ -84,6 +84,8 @@ def streams(tier, rng, P, only=None, cases=None):
                     "Array A=(1,2,3) Print(A(3))", "ARRAY A=(1,2,3) PRINT(A(2)) PRINT(A(3)) PRINT(A(4)) PRINT(A(0)) PRINT(A(0-1))", "Array A=(60,64,67) FOR(Int I=0; I<=SizeOf(A); I++){ Int N=A(I) Print(N) }",
                     "ARRAY E=() PRINT(E(0)) PRINT(SizeOf(E))", "ARRAY A=(7) PRINT(A(1)) INT K=A(1) n(K)", "STR S={abc} PRINT(S(3)) PRINT(S(2)) PRINT(S(0))", "ARRAY A=(1,2) INT I=SizeOf(A) PRINT(A(I)) A(I)",
                     "STR S={a} PRINT(S(1))",
+                    # literals with digits their base does not have
+                    "INT A=0o18 PRINT(A)", "v0o8 c", "c4,0o8", "[0o8 c16]", "@0o18 c", "TR=0o8 c", "INT B=0o9 PRINT(B)", "INT C=0xG1 PRINT(C)", "INT D=$ZZ PRINT(D)", "PRINT(0o777) PRINT(0o) PRINT(0x)",
                     # small negative counts and positions in the string built-ins
                     "STR A={abcd};PRINT(MID(A,2,-1))", "PRINT(MID({abcd},3,-2)) PRINT(MID({abcd},4,-1)) PRINT(MID({abcd},4,-3))", "PRINT(MID({abcd},-1,2)) PRINT(MID({abcd},-3,-3)) PRINT(MID({abcd},0,-1))",
                     "PRINT(MID({あいう},2,-1)) PRINT(MID({あいう},3,-2))", "PRINT(CHR(-1)) PRINT(CHR(-65)) PRINT(HEX(-1)) PRINT(HEX(-255))", "PRINT(REPLACE({abc},{},{x})) PRINT(REPLACE({},{a},{b}))", "FUNCTION F(){ F2() }", "F(1)", "RETURN(1)", "BREAK", "CONTINUE", "ELSE{c}", "IF(1)", "WHILE(1)", "FOR(", "FOR(;;){BREAK}", "#A #A", "#A={#?1} #A", "Rhythm{(", "Rhythm{Sub", "R{$}", "$", "$=", "v.onNote() c", "v.onNote(=) c",
